@@ -584,3 +584,7 @@ def run(ctx):
     r = ctx.rule("R6e", "aarch64 gradient assembler: 128-bit arrangements only; load_imm drops no bit of the constant", 23 + 3)
     ctx.guarded(r, XC.check_full_width, "grad_slice")
     ctx.guarded(r, XC.check_load_imm, "grad_slice")
+    from .. import x86sem as XS86
+
+    r = ctx.rule("R6f", "x86_64 gradient add / sub / neg / mul / div / sqrt / square / recip: value lane and the three derivative lanes follow the chain rule (symbolic lanes)", 9)
+    ctx.guarded(r, XS86.check_lane_semantics, "grad_slice")
